@@ -267,7 +267,8 @@ def t_additionalProperties(d, k):
                 schema["properties"] = props
             if pats is not None:
                 schema["patternProperties"] = pats
-            for members in ((), ("a",), ("a", "xa"), ("a", "b"), ("b", "xa", "c")):
+            # the empty string and "0" are member names like any other (and falsy / digit-like ones)
+            for members in ((), ("a",), ("a", "xa"), ("a", "b"), ("b", "xa", "c"), ("",), ("", "b"), ("b", ""), ("a", "", "xa"), ("0",)):
                 inst = {m: X(i) for i, m in enumerate(members)}
                 extras = [m for m in members if not (props and m in props) and not (pats and any(re.search(p, m) for p in pats))]
                 for o in oracles([(inst[m], val) for m in extras] if isinstance(val, Tok) else [], two=(len(extras) == 2)):
